@@ -1633,7 +1633,11 @@ func (f *fnTrans) loopEntry(li *loopInfo, preds []*ssa.BasicBlock, conds []Term)
 			}
 			t, err := env.EvalBool(cl.Expr)
 			if err != nil {
-				f.unsupported("%s: invariant %q: %v", cl.Line, cl.Src, err)
+				if !strings.Contains(err.Error(), "unknown identifier") {
+					// (an invariant naming an identifier the code no longer has is reported as a failed
+					// obligation where it is checked; here it is simply not assumed)
+					f.unsupported("%s: invariant %q: %v", cl.Line, cl.Src, err)
+				}
 				continue
 			}
 			f.factHere(t)
